@@ -18,9 +18,15 @@ claimed = {
  "C10": dict(ref="DESIGN.md §4 C10",
    text="Bounded symbolic execution of the real lexer/parser: allTokens on every input of <=4 bytes (5 thorough) over the lexical alphabet and <=2 arbitrary bytes (UTF-8/BOM paths); parser.parseAll on every token sequence of <=4 tokens (6 thorough) over the structural vocabulary with arbitrary line breaks and on sequences with snippet definitions/imports; structured snippet definitions + use; file import equals inline; replaceEnvVars on every token <=5 bytes over {{}$%V} with every value <=4 bytes. Asserts totality, termination within a derived instruction budget (a budget overrun is replayed natively under a wall-clock guard), errors name file:line, keys and directive tokens exactly as written.",
    note="Termination is claimed only within the bounds. Known finding (listed, not fixed): snippet import cycles never terminate. Imports use an in-memory file table (os.Open/Stat, filepath.Glob/Abs intrinsics); JSON conversion is outside."),
+ "C12": dict(ref="DESIGN.md §4 C12",
+   text="Bounded symbolic execution of the real request entry point and wrappers: a site built with SiteConfig.AddMiddleware + httpserver.NewServer for every subset of {log, header, errors (debug on/off)} around an innermost handler with every behaviour in the bound (explicit status 200/204/404/500 or none, 0..2 chunks of symbolic bytes, returns 0/200/404/500/503 with or without error, panics before or after writing), driven through Server.ServeHTTP into a client-side ResponseWriter that enforces net/http's rules (first status wins, codes < 100 panic). Asserts: no superfluous header commit, written status/body/headers unaltered, error status delivered with a body, panic before writing gives 500, configured header applied, and a second request through the same server is served.",
+   note="gzip, templates, mime, status, limits, request_id and rewrite wrappers are not in this chain yet (gzip's transparency is C18); HTTP/2 is outside. runtime.Callers/Stack are inert intrinsics."),
  "C13": dict(ref="DESIGN.md §4 C13",
    text="SMT-decided kernels on the real fastcgi client code: header.init for every content length 0..65535 (padding < 8, 8-aligned), encodeSize for every size < 2^31 against the specification decoder, writeRecord wire layout for symbolic contents, and streamReader over every framing of <= 2 (3 thorough) stdout/stderr/other records with symbolic payloads, padding, read chunking and reader buffer sizes.",
    note="Bounds: record content <= 9 bytes (17 thorough) in writeRecord; stream harness payload <= 2 bytes per record, padding <= 1. encoding/binary.Read/Write are modelled by an intrinsic (fixed big-endian layout). writePairs, buildEnv, the body path and extension routing are not covered yet."),
+ "C18": dict(ref="DESIGN.md §4 C18",
+   text="Bounded symbolic execution of the real gzip middleware (Gzip.ServeHTTP, gzipResponseWriter, ResponseFilterWriter, SkipCompressedFilter, LengthFilter, ExtFilter, writer pool) against the same inner handler run without it: for every inner response in the bound (Content-Type present/absent, Content-Length absent/right/wrong, pre-set Content-Encoding in {none,gzip,br,zstd,deflate,identity}, ETag, status 200/204/304/404 explicit or implicit, 0..2 writes of symbolic bytes), every Accept-Encoding in {none,gzip,zstd,'gzip, zstd',identity}, request path by extension and min_length setting: the decoded body equals the identity body, gzip only when offered, already-encoded responses are not encoded again, Content-Encoding otherwise unchanged, Content-Length absent or correct, Vary: Accept-Encoding once.",
+   note="compress/gzip.Writer is modelled as a tagging identity encoder (1f 8b '(' payload ')'); that DEFLATE round-trips is the standard library's property. The native replay uses the real gzip and decodes with compress/gzip. Precompressed static siblings under the gzip middleware are not covered yet."),
  "C19": dict(ref="DESIGN.md §4 C19",
    text="Bounded symbolic execution of the peer-facing parsers on arbitrary bytes: parseRawClientHello on every input of 0..52 bytes (62 thorough) with all bytes symbolic; the browser heuristics (looksLikeFirefox/Chrome/Edge/Safari/Tor, heartbeat) on arbitrary extension/curve/cipher lists; getVersion; clientHelloConn.Read for every split point of a record into reads (recorded info equals parse of the whole, bytes passed on unchanged); parseLinkHeader on every string <= 6 bytes over {<>;,=a space} and <= 3 arbitrary bytes. Any panic escaping is a violation; counterexamples are replayed natively.",
    note="Bounds as stated; hello bodies of 42..43 bytes in the segmentation harness with one cut (two cuts thorough). fastcgi records, replacer and basicauth header parsing are not covered yet by this check."),
@@ -37,7 +43,7 @@ claimed = {
 not_applicable = {
  "C07": "Not decidable by symbolic execution of casket's code: the observable is the fate of real connections on kernel sockets while descriptors are duplicated and net/http drains; a verdict would be about a hand-written model of the kernel and net/http, not about this code (DESIGN.md §4 C07).",
 }
-pending = ["C02","C04","C08","C09","C11","C12","C14","C16","C18"]
+pending = ["C02","C04","C08","C09","C11","C14","C16"]
 checks = []
 for pid, c in sorted(claimed.items()):
     checks.append({
